@@ -532,20 +532,27 @@ def evalAtom (X : Ext) (env : Env) (a : Atom) : Res Bool := do
 /-- `any(all(item) for item in groups)` -/
 def anyAll (gs : List (List Bool)) : Bool := gs.any fun g => g.all id
 
-/-- the `for marker in markers` loop with `groups = done ++ [cur]`; the recursive call of
-`_evaluate_markers` on a nested list is the inner `evalLoop … [] []` -/
+mutual
+/-- the value appended to `groups[-1]` for a tuple or a nested list (the recursive call of
+`_evaluate_markers` is the inner `evalLoop … [] []`) -/
+def evalItem (ν : Atom → Res Bool) : M → Res Bool
+  | .atom a => ν a
+  | .list l => (evalLoop ν l [] []).map anyAll
+  | .bool _ => .error (.raw .assertionError)
+/-- the `for marker in markers` loop with `groups = done ++ [cur]` -/
 def evalLoop (ν : Atom → Res Bool) : List M → List (List Bool) → List Bool → Res (List (List Bool))
   | [], done, cur => .ok (done ++ [cur])
-  | .list l :: rest, done, cur => do
-    let gs ← evalLoop ν l [] []
-    evalLoop ν rest done (cur ++ [anyAll gs])
-  | .atom a :: rest, done, cur => do
-    let b ← ν a
-    evalLoop ν rest done (cur ++ [b])
   | .bool s :: rest, done, cur =>
     if s == s_or then evalLoop ν rest (done ++ [cur]) []
     else if s == s_and then evalLoop ν rest done cur
     else .error (.raw .assertionError)
+  | .atom a :: rest, done, cur => do
+    let b ← evalItem ν (.atom a)
+    evalLoop ν rest done (cur ++ [b])
+  | .list l :: rest, done, cur => do
+    let b ← evalItem ν (.list l)
+    evalLoop ν rest done (cur ++ [b])
+end
 
 /-- `_evaluate_markers` -/
 def evalMarkers (ν : Atom → Res Bool) (l : List M) : Res Bool :=
